@@ -346,6 +346,13 @@ def steer_panel(tier):
             options={"max_fun_evals": 70, "noise_final_samples": 2}, tags=["gp_nonfinite", "specified", "zero_actual_noise"])
         add(2, box, {"family": "const", "c": 2.0}, noise={"mode": "declared", "sigma": 0.5, "actual": 0.0},
             options={"max_fun_evals": 70, "noise_final_samples": 2}, tags=["gp_nonfinite", "declared", "zero_actual_noise"])
+        # noise much larger than options['noise_size'] (high-noise refit branch)
+        add(2, box, _quad(2, r, cond=4.0), noise={"mode": "auto", "sigma": 10.0},
+            options={"max_fun_evals": 120, "noise_final_samples": 3}, tags=["high_noise", "auto"])
+        add(1, S.box_geom(1, x0=[1.0]), _quad(1, r), noise={"mode": "declared", "sigma": 9.0},
+            options={"max_fun_evals": 110, "noise_final_samples": 3}, tags=["high_noise", "declared"])
+        add(3, S.box_geom(3, x0=[1.0, -1.0, 0.5]), _quad(3, r, cond=4.0), noise={"mode": "declared", "sigma": 25.0},
+            options={"max_fun_evals": 130, "noise_final_samples": 2}, tags=["high_noise", "declared"])
         # user output function: stops the run at initialisation / never stops
         add(2, box, _quad(2, r), options={"_output_fcn": "stop_init", "max_fun_evals": 40}, tags=["output_fcn", "stop_init"])
         add(2, box, _quad(2, r), options={"_output_fcn": "never", "max_fun_evals": 40}, tags=["output_fcn"])
